@@ -7,7 +7,7 @@ CONSTANTS Depth
 
 Sites   == {"include", "includectx", "exec", "execctx", "incif", "incifctx", "incifmissing", "includemissing", "execmissing",
             "incifbroken", "includebroken", "execbroken", "includecomputed", "execctxnil", "includectxnil", "incifctxnil"}
-Shapes  == {"plain", "ext1", "ext2"}
+Shapes  == {"plain", "ext1", "ext2", "ext2r"}   \* ext2r: two levels of extends, the root layout ends with a return of its own
 Returns == {"none", "top", "two", "inif", "inelse", "inrange", "intry", "nested", "thenif", "thentry", "theninclude", "nilret", "incatch", "incatchvar", "afterfailedtry", "retctx"}
 SiteKinds == {"range", "ycont", "tryin", "include", "iflet"}
 
@@ -37,9 +37,10 @@ MkC(par) ==
                  \o RetBody(rk) \o <<T("ce")>>
       cal  == CASE shape = "plain" -> Tm("cal", "", <<>>, calbody)
                 [] OTHER -> Tm("cal", "lay1", <<>>, <<BlockS("cbs", "slot", <<>>, NoE, calbody)>>)
-      lay1 == IF shape = "ext2" THEN Tm("lay1", "lay2", <<>>, <<BlockS("l1b", "slot2", <<>>, NoE, <<T("L1a"), BlockS("l1s", "slot", <<>>, NoE, <<T("L1slot")>>), T("L1b")>>)>>)
+      lay1 == IF shape \in {"ext2", "ext2r"} THEN Tm("lay1", "lay2", <<>>, <<BlockS("l1b", "slot2", <<>>, NoE, <<T("L1a"), BlockS("l1s", "slot", <<>>, NoE, <<T("L1slot")>>), T("L1b")>>)>>)
               ELSE Tm("lay1", "", <<>>, <<T("L1a"), BlockS("l1s", "slot", <<>>, NoE, <<T("L1slot")>>), T("L1b")>>)
-      lay2 == Tm("lay2", "", <<>>, <<T("L2a"), BlockS("l2s", "slot2", <<>>, NoE, <<T("L2slot")>>), T("L2b")>>)
+      lay2 == Tm("lay2", "", <<>>, <<T("L2a"), BlockS("l2s", "slot2", <<>>, NoE, <<T("L2slot")>>), T("L2b")>>
+                                     \o (IF shape = "ext2r" THEN <<Ret("l2r", Lit("rootret"))>> ELSE <<>>))
       call == CASE site = "include"        -> <<Incl("call", "cal")>>
                 [] site = "includectx"     -> <<InclCx("call", "cal", Lit("C2"))>>
                 [] site = "exec"           -> <<ExecLet("call", "r", "cal"), P("pr", Var("r"))>>
@@ -73,5 +74,6 @@ cParams == {p \in PathsUpTo(SiteKinds, Depth) \X Sites \X Shapes \X Returns :
               /\ (p[2] = "includecomputed" => p[4] = "none")
               /\ (p[2] \in {"execctxnil", "includectxnil", "incifctxnil"} => p[4] \in {"none", "top", "retctx"})
               /\ (p[4] # "none" => p[2] \in {"exec", "execctx", "include", "execctxnil", "includectxnil", "incifctxnil"})
-              /\ (p[3] # "plain" => p[4] \in {"none", "top", "retctx"})}
+              /\ (p[3] # "plain" => p[4] \in {"none", "top", "retctx"})
+              /\ (p[3] = "ext2r" => p[2] \in {"exec", "execctx"})}
 =============================================================================
